@@ -93,6 +93,23 @@ pub struct Ctx {
     pub debug_texts: Mutex<std::collections::BTreeMap<usize, Result<String, String>>>,
 }
 
+/// bumped by the panic hook for the lane whose thread panicked: gates of that lane open at once
+pub static PANIC_EPOCH: [AtomicU64; 64] = {
+    #[allow(clippy::declare_interior_mutable_const)]
+    const Z: AtomicU64 = AtomicU64::new(0);
+    [Z; 64]
+};
+
+/// lane of the current thread, from its name ("lane-<n>" or "vpool-<lane>-<size>-<i>")
+pub fn lane_of_current_thread() -> Option<usize> {
+    let t = std::thread::current();
+    let name = t.name()?;
+    let rest = name
+        .strip_prefix("lane-")
+        .or_else(|| name.strip_prefix("vpool-"))?;
+    rest.split('-').next()?.parse::<usize>().ok().map(|l| l % 64)
+}
+
 thread_local! {
     static THREAD_NO: u64 = {
         static NEXT: AtomicU64 = AtomicU64::new(1);
